@@ -260,7 +260,7 @@ func c17Loopback(c *Ctx) {
 		q <- os.Interrupt
 		select {
 		case <-done:
-		case <-time.After(5 * time.Second):
+		case <-liveAfter(5 * time.Second):
 			c.Res.Inconcl("listener did not stop")
 		}
 		conn.Close()
